@@ -1566,17 +1566,21 @@ class Parameter(_ParameterBase):
         item in a list).
         """
         name = self.name
+        update_link = None
         if obj is not None and self.allow_refs and obj._param__private.initialized:
             syncing = name in obj._param__private.syncing
             ref, deps, val, is_async = obj.param._resolve_ref(self, val)
-            refs = obj._param__private.refs
-            if ref is not None:
-                self.owner.param._update_ref(name, ref)
-            elif name in refs and not syncing:
-                # a plain value ends the link for good, including the
-                # watchers kept on its sources
-                self.owner.param._update_ref(name, None)
+
+            def update_link():
+                if ref is not None:
+                    self.owner.param._update_ref(name, ref)
+                elif name in obj._param__private.refs and not syncing:
+                    # a plain value ends the link for good, including the
+                    # watchers kept on its sources
+                    self.owner.param._update_ref(name, None)
+
             if is_async or val is Undefined:
+                update_link()
                 return
 
         # Deprecated Number set_hook called here to avoid duplicating setter
@@ -1591,6 +1595,17 @@ class Parameter(_ParameterBase):
                 )
 
         self._validate(val)
+
+        if update_link is not None:
+            # The link is installed / dropped only once the assignment is
+            # known to be accepted: a rejected value or reference must leave
+            # the existing links as they were.
+            if self.readonly:
+                raise TypeError("Read-only parameter '%s' cannot be modified" % name)
+            elif (self.constant and obj._param__private.initialized and val is not
+                  obj._param__private.values.get(self.name, _class_default(obj, self))):
+                raise TypeError("Constant parameter '%s' cannot be modified" % name)
+            update_link()
 
         _old = NotImplemented
         # obj can be None if __set__ is called for a Parameterized class
